@@ -1,0 +1,41 @@
+//go:build verif
+
+package model
+
+import "sync/atomic"
+
+// Verification hooks (build tag "verif" only). VerifYield marks a scheduling point; the
+// verification harness may install a function that yields, sleeps or blocks there.
+var verifYieldFn atomic.Value // func(point string)
+
+// SetVerifYield installs (or, with nil, removes) the scheduling-point callback.
+func SetVerifYield(f func(point string)) {
+	if f == nil {
+		f = func(string) {}
+	}
+	verifYieldFn.Store(f)
+}
+
+// VerifYield is called at the scheduling points of the exchange operators and workers.
+func VerifYield(point string) {
+	if f, ok := verifYieldFn.Load().(func(string)); ok {
+		f(point)
+	}
+}
+
+var verifWrapRootFn atomic.Value // func(VectorOperator, string, int64, int64, int64) VectorOperator
+
+// SetVerifWrapRoot installs the function that receives the root of every physical plan the
+// engine builds, together with the query text and evaluation window (milliseconds), and
+// returns the operator to execute in its place.
+func SetVerifWrapRoot(f func(root VectorOperator, query string, start, end, step int64) VectorOperator) {
+	verifWrapRootFn.Store(f)
+}
+
+// VerifWrapRoot passes a freshly built physical plan through the installed function, if any.
+func VerifWrapRoot(root VectorOperator, query string, start, end, step int64) VectorOperator {
+	if f, ok := verifWrapRootFn.Load().(func(VectorOperator, string, int64, int64, int64) VectorOperator); ok && f != nil {
+		return f(root, query, start, end, step)
+	}
+	return root
+}
